@@ -226,7 +226,7 @@ fn in_process(ctx: &Ctx) {
 
 // ------------------------------------------------------------------------------------------ real binary
 
-fn build_server_binary() -> Result<String, String> {
+pub fn build_server_binary() -> Result<String, String> {
     let out = std::process::Command::new("cargo")
         .args(["build", "--manifest-path", "/repo/Cargo.toml", "-p", "humphrey_server", "--release", "--offline", "--target-dir", "/verif/target/server"])
         .env("CARGO_NET_OFFLINE", "true")
